@@ -8,6 +8,7 @@ import (
 	"go/token"
 	"go/types"
 	"math/big"
+	"regexp"
 	"sort"
 	"strings"
 
@@ -77,8 +78,10 @@ func (s *State) clone() *State {
 // Obligations and facts
 
 type Fact struct {
-	Guard string
-	Term  string
+	Guard  string
+	Term   string
+	Class  string // "" = always included; "closed" = heap closedness axiom (dropped in the lite variant)
+	Quants []QInst
 }
 
 type Obligation struct {
@@ -93,6 +96,8 @@ type Obligation struct {
 	Src      string
 	MustFail bool
 	Cover    bool // cover query: expected sat
+	Skolems  []string
+	NCands   int
 	fc       *FnCtx
 	Result   *SolverResult
 	All      []SolverResult
@@ -127,6 +132,9 @@ type FnCtx struct {
 	lastMarshal   *marshalInfo
 	encrypts      []encryptRec
 	pendingClosed [][2]string
+	closedDecls   []string
+	cands         []string
+	candSet       map[string]bool
 	pendingVals   []Val
 	pendingRows   [][2]string
 }
@@ -168,7 +176,26 @@ func (fc *FnCtx) addFact(guard, term string) {
 	if term == "true" || term == guard {
 		return
 	}
-	fc.facts = append(fc.facts, Fact{guard, term})
+	fc.facts = append(fc.facts, Fact{Guard: guard, Term: term})
+}
+
+func (fc *FnCtx) addFactQ(guard, term string, qs []QInst) {
+	if term == "true" || term == guard {
+		return
+	}
+	fc.facts = append(fc.facts, Fact{Guard: guard, Term: term, Quants: qs})
+}
+
+// addCand registers a ground term at which quantified hypotheses get instantiated
+func (fc *FnCtx) addCand(t string) {
+	if fc.candSet == nil {
+		fc.candSet = map[string]bool{}
+	}
+	if fc.candSet[t] || len(t) > 200 {
+		return
+	}
+	fc.candSet[t] = true
+	fc.cands = append(fc.cands, t)
 }
 
 func (fc *FnCtx) unsupported(format string, args ...interface{}) {
@@ -181,6 +208,50 @@ func (fc *FnCtx) unsupported(format string, args ...interface{}) {
 	fc.errors = append(fc.errors, msg)
 }
 
+// splitGoal breaks (and a b) and (=> p (and a b)) into separate goals
+func splitGoal(goal string) []string {
+	args := splitSexpr(goal)
+	if len(args) >= 3 && args[0] == "and" {
+		var out []string
+		for _, a := range args[1:] {
+			out = append(out, splitGoal(a)...)
+		}
+		return out
+	}
+	if len(args) == 3 && args[0] == "=>" {
+		parts := splitGoal(args[2])
+		if len(parts) > 1 {
+			var out []string
+			for _, p := range parts {
+				out = append(out, sImp(args[1], p))
+			}
+			return out
+		}
+	}
+	return []string{goal}
+}
+
+// obligeSplit emits one obligation per conjunct; the first obligation is returned
+func (fc *FnCtx) obligeSplit(kind, what, guard, goal string, pos token.Pos, props []string, keepFact bool, sks []string) []*Obligation {
+	parts := splitGoal(goal)
+	var out []*Obligation
+	for i, p := range parts {
+		w := what
+		if len(parts) > 1 {
+			w = fmt.Sprintf("%s.%d", what, i+1)
+		}
+		o := fc.oblige(kind, w, guard, p, pos, props)
+		if o != nil {
+			if !keepFact {
+				fc.facts = fc.facts[:len(fc.facts)-1]
+			}
+			o.Skolems = sks
+			out = append(out, o)
+		}
+	}
+	return out
+}
+
 func (fc *FnCtx) oblige(kind, what, guard, goal string, pos token.Pos, props []string) *Obligation {
 	if goal == "true" {
 		return nil
@@ -191,7 +262,7 @@ func (fc *FnCtx) oblige(kind, what, guard, goal string, pos token.Pos, props []s
 	if n := fc.nameCnt[base]; n > 1 {
 		name = fmt.Sprintf("%s#%d", base, n)
 	}
-	o := &Obligation{Name: name, Kind: kind, Func: fc.fnName(), Guard: guard, Goal: goal, NFacts: len(fc.facts), fc: fc, Props: props}
+	o := &Obligation{Name: name, Kind: kind, Func: fc.fnName(), Guard: guard, Goal: goal, NFacts: len(fc.facts), fc: fc, Props: props, NCands: len(fc.cands)}
 	if pos.IsValid() {
 		p := fc.eng.fset.Position(pos)
 		o.Pos = fmt.Sprintf("%s:%d", p.Filename, p.Line)
@@ -255,8 +326,18 @@ func isAggType(t types.Type) bool {
 }
 
 func typeKey(t types.Type) string {
-	return types.TypeString(t, nil)
+	s := types.TypeString(t, nil)
+	if strings.Contains(s, "byte") || strings.Contains(s, "rune") || strings.Contains(s, "any") {
+		s = reByte.ReplaceAllString(s, "uint8")
+		s = reRune.ReplaceAllString(s, "int32")
+		s = reAny.ReplaceAllString(s, "interface{}")
+	}
+	return s
 }
+
+var reByte = regexp.MustCompile(`\bbyte\b`)
+var reRune = regexp.MustCompile(`\brune\b`)
+var reAny = regexp.MustCompile(`\bany\b`)
 
 func zeroTerm(t types.Type) string {
 	if isBoolType(t) {
@@ -381,15 +462,11 @@ func (fc *FnCtx) closedRowFact(row, name, alloc string) string {
 	case *types.Pointer, *types.Map, *types.Chan:
 		body = sApp("<=", sel, alloc)
 	case *types.Slice:
-		body = sAnd(sApp("<=", sApp("sl_arr", sel), alloc), sApp("slwf", sel))
+		body = sApp("<=", sApp("sl_arr", sel), alloc)
 	case *types.Interface:
 		body = sApp("<=", sApp("ipay", sel), alloc)
 	default:
-		if _, _, ok := intInfo(t); ok {
-			body = rangeFact(t, sel)
-		} else {
-			return "true"
-		}
+		return "true"
 	}
 	return fmt.Sprintf("(forall ((ci Int)) (! %s :pattern (%s)))", body, sel)
 }
@@ -416,15 +493,11 @@ func (fc *FnCtx) closedFact(term, name, alloc string) string {
 	case *types.Pointer, *types.Map, *types.Chan:
 		body = sApp("<=", sel, alloc)
 	case *types.Slice:
-		body = sAnd(sApp("<=", sApp("sl_arr", sel), alloc), sApp("slwf", sel))
+		body = sApp("<=", sApp("sl_arr", sel), alloc)
 	case *types.Interface:
 		body = sApp("<=", sApp("ipay", sel), alloc)
 	default:
-		if _, _, ok := intInfo(t); ok {
-			body = rangeFact(t, sel)
-		} else {
-			return "true"
-		}
+		return "true"
 	}
 	return fmt.Sprintf("(forall %s (! %s :pattern (%s)))", binders, body, pat)
 }
@@ -463,7 +536,7 @@ func (fc *FnCtx) get(st *State, name string) string {
 	if !fc.declSet["closed:"+name] && name != hAlloc {
 		fc.declSet["closed:"+name] = true
 		if cf := fc.closedFact(n0, name, fc.declare(hAlloc+"!0", "Int")); cf != "true" {
-			fc.decls = append(fc.decls, "(assert "+cf+")")
+			fc.closedDecls = append(fc.closedDecls, "(assert "+cf+")")
 		}
 	}
 	return n0
